@@ -152,6 +152,12 @@ def main():
     mod = importlib.import_module('vmon.props.%s' % prop.lower())
     quiet_rdkit()
     pfile = check_target()
+    if os.environ.get('VMON_STDOUT') == 'closed' and hasattr(
+            sys, 'set_int_max_str_digits'):
+        # ... and, now that the package is imported, the interpreter's limit
+        # on int <-> str conversion is lowered to its minimum (an application
+        # hardening itself at start-up, after its imports)
+        sys.set_int_max_str_digits(640)
 
     if sys.argv[2] == 'replay':
         with open(sys.argv[3]) as f:
